@@ -3,6 +3,7 @@
 //! range / fullness updates and timer expiries in simulated time. Serves C08.
 
 mod model;
+mod glue;
 mod world;
 
 use serde::{Deserialize, Serialize};
@@ -58,6 +59,9 @@ pub struct Plan {
     /// bounded-liveness phase at the end: this responsive holder keeps advertising this list
     pub live_holder: usize,
     pub live_keys: Vec<KV>,
+    /// mode full_node_glue: the real driver glue around the fetcher (see glue.rs)
+    #[serde(default)]
+    pub glue: Option<glue::Glue>,
 }
 
 pub struct FetcherSim;
@@ -106,7 +110,7 @@ impl Sim for FetcherSim {
         vec![PropertySpec {
             id: "C08",
             level: "exploration",
-            modes: vec!["nofault", "fault"],
+            modes: vec!["nofault", "fault", "full_node_glue"],
             quick_runs: 60_000,
             thorough_runs: 4_000_000,
             rule: "One run = one seeded plan over a universe of 5..120 keys (chunk / scratchpad / register-or-transaction with several content versions) and 1..4 holders: single-key and multi-key advertisement lists with overlaps, re-advertisements and disagreeing versions, arrivals in chosen order (stored / store full / store error / stored after eviction), early completions, puts by other paths, range and farthest-on-full updates, next_keys_to_fetch calls, event deliveries and simulated-time advances (mode fault: dead holders, advances beyond FETCH_TIMEOUT and PENDING_TIMEOUT, late arrivals, spurious completions, range shrinkage and evictions while fetches are in flight; mode nofault: every holder answers and no timer expires), followed by a bounded-liveness phase (deliver, advance 25 s, re-advertise). Every returned list, both fetcher sets and every event are checked against oracle clauses (a)-(h) and a tracking model in simulated time. Non-trivial = >=3 operations and (>=1 fired fault or >=1 arrival/delivery order that differs from FIFO); distinct = distinct fingerprint of the executed sequence of resolved choices and faults.",
@@ -121,6 +125,28 @@ impl Sim for FetcherSim {
     }
 
     fn generate(rng: &mut Rng, ctx: &GenCtx) -> Plan {
+        if ctx.mode == "full_node_glue" {
+            let n_arr = rng.urange(1, 6);
+            return Plan {
+                property: ctx.property.clone(),
+                mode: ctx.mode.clone(),
+                node_key: rng.next_u64(),
+                n_keys: 0,
+                n_holders: 1,
+                dead: vec![false],
+                chan_cap: 4,
+                held: vec![],
+                steps: vec![],
+                live_holder: 0,
+                live_keys: vec![],
+                glue: Some(glue::Glue {
+                    capacity: rng.urange(2, 6),
+                    n_far: rng.urange(21, 40),
+                    n_near: rng.urange(0, 3),
+                    arrivals: (0..n_arr).map(|_| if rng.chance(1, 2) { 0 } else { rng.below(1 << 16) as u32 }).collect(),
+                }),
+            };
+        }
         let fault = ctx.mode == "fault";
         let n_keys = match rng.below(10) {
             0..=3 => rng.urange(5, 12),
@@ -278,10 +304,14 @@ impl Sim for FetcherSim {
             steps,
             live_holder,
             live_keys,
+            glue: None,
         }
     }
 
     fn execute(plan: &Plan, entropy: u64) -> RunReport {
+        if plan.glue.is_some() {
+            return glue::execute(plan, entropy);
+        }
         world::execute(plan, entropy)
     }
 
